@@ -273,7 +273,7 @@ int main()
       close(fds[0]);
       out = fdopen(fds[1], "w");
       setvbuf(out, nullptr, _IONBF, 0);
-      alarm(20);
+      alarm(90);
       run_case(v);
       fflush(out);
       _exit(0);
